@@ -198,12 +198,12 @@ theorem atomOK_func (id : Option String) (ch : Chan) (dur e : Expr) (meas : List
       have hb' : e.eval (withT "t" (funcLook σ) 1) = .ok b := hb
       have haffine := affine_eval e "t" (funcLook σ) haff a b ha' hb'
       -- the leaf: a function waveform, or a constant one if `t` does not occur
-      have hleaf : ∃ w, w? = some w ∧ w.duration = d ∧
+      have hleaf : ∃ w, w? = some w ∧ w.duration = d ∧ w.channels = [oc] ∧
           (∀ cv, w.constDict = some cv → constFromMapping w.duration cv = .ok w) ∧
           ∀ t, w.sample oc t = some (a + (b - a) * t) := by
         by_cases ht : e.vars.contains "t"
         · simp only [ht, if_true, pure_ok] at hw
-          refine ⟨_, hw.symm, by simp [Wf.duration], by simp [Wf.constDict], ?_⟩
+          refine ⟨_, hw.symm, by simp [Wf.duration], by simp [Wf.channels], by simp [Wf.constDict], ?_⟩
           intro t
           simp only [Wf.sample]
           rw [Expr.eval_congr e _ (withT "t" (funcLook σ) t) (by
@@ -227,14 +227,14 @@ theorem atomOK_func (id : Option String) (ch : Chan) (dur e : Expr) (meas : List
           have hab : b = a := by
             have := eval_freeOf e "t" (funcLook σ) hfree 1 0
             rw [ha', hb'] at this; cases this; rfl
-          refine ⟨_, hw.symm, by simp [Wf.duration], ?_, ?_⟩
+          refine ⟨_, hw.symm, by simp [Wf.duration], by simp [Wf.channels], ?_, ?_⟩
           · intro cv hcv
             simp only [Wf.constDict, Option.some.injEq] at hcv
             subst hcv
             simp [constFromMapping, Wf.duration]
           · intro t
             simp [Wf.sample, hab]
-      obtain ⟨w, rfl, hwd, hwc, hws⟩ := hleaf
+      obtain ⟨w, rfl, hwd, hwch, hwc, hws⟩ := hleaf
       simp only [bind_ok] at h1
       obtain ⟨ms', hms', h1⟩ := h1
       rw [hms] at hms'; cases hms'
@@ -260,6 +260,7 @@ theorem atomOK_func (id : Option String) (ch : Chan) (dur e : Expr) (meas : List
       simp only [hdpos, if_true]
       apply rel_single_leaf w ms d hdpos hwd
       · simp
+      · intro x; rw [hwch]; simp
       · intro c pl hc
         simp only [List.lookup_cons, List.lookup_nil] at hc
         by_cases hk : c == oc
